@@ -297,8 +297,7 @@ theorem csig_value_accept (w : Wire) (v : GoVal) (h : decCsigValue w = .ok v) :
       cases hs : decSigFields xs with
       | ok c =>
         simp only [hs, if_true] at h
-        cases h
-        exact .inl ⟨xs, rfl, c, hs, rfl⟩
+        exact .inl ⟨xs, rfl, c, hs, (Out.ok.inj h).symm⟩
       | err e =>
         cases hl : decCsigList xs with
         | ok l =>
@@ -321,8 +320,9 @@ theorem csig_value_accept (w : Wire) (v : GoVal) (h : decCsigValue w = .ok v) :
   | prim hw n =>
     unfold decCsigValue at h
     split at h
-    · cases h; exact .inr (.inr ⟨.inl rfl, rfl⟩)
-    · cases h; exact .inr (.inr ⟨.inr rfl, rfl⟩)
+    · rename_i heq; cases heq
+    · rename_i heq; cases heq; cases h; exact .inr (.inr ⟨.inl rfl, rfl⟩)
+    · rename_i heq; cases heq; cases h; exact .inr (.inr ⟨.inr rfl, rfl⟩)
     · cases h
   | uint _ _ => simp [decCsigValue] at h
   | nint _ _ => simp [decCsigValue] at h
@@ -473,5 +473,256 @@ theorem WFList_mem {l : List GoVal} (h : WFList l) : ∀ c ∈ l, WFVal c := by
     rcases List.mem_cons.mp he with rfl | he
     · exact h.1
     · exact ih h.2 e he
+
+end C05
+
+namespace C05
+
+/-- the generic decoder never produces countersignature objects, so its values are trivially
+    well-formed -/
+theorem decodeAny_wfval {w : Wire} {v : GoVal} (h : decodeAny w = .ok v) : WFVal v := by
+  cases w with
+  | uint hw n => unfold decodeAny at h; split at h <;> cases h; simp [WFVal]
+  | nint hw n => unfold decodeAny at h; split at h <;> cases h; simp [WFVal]
+  | bstr hw b => unfold decodeAny at h; cases h; simp [WFVal]
+  | tstr hw b => unfold decodeAny at h; split at h <;> cases h; simp [WFVal]
+  | tag hw t x => unfold decodeAny at h; cases h
+  | prim hw n =>
+    cases hw <;> unfold decodeAny at h
+    · split at h
+      · cases h; simp [WFVal]
+      · split at h
+        · cases h; simp [WFVal]
+        · split at h <;> cases h <;> simp [WFVal]
+    · cases h; simp [WFVal]
+    · cases h
+    · cases h
+    · cases h; simp [WFVal]
+  | arr hw xs =>
+    unfold decodeAny at h
+    cases hl : decodeList xs <;> simp [hl] at h
+    subst h; simp [WFVal]
+  | map hw kvs =>
+    unfold decodeAny at h
+    cases hl : decodePairs kvs [] <;> simp [hl] at h
+    subst h; simp [WFVal]
+
+theorem csigOne_wfval_of_not_arr {x : Wire} {a : GoVal} (h : C06.csigOne x = .ok a)
+    (hx : ∀ hw ys, x ≠ .arr hw ys) : WFVal a := by
+  rcases csigOne_ok h with ⟨-, rfl⟩ | ⟨ys, heq, -⟩
+  · simp [WFVal]
+  · exact absurd heq (hx _ _)
+
+mutual
+theorem decSigFields_wfval : ∀ (xs : List Wire) (v : GoVal), decSigFields xs = .ok v → WFVal v
+  | [], _, h => by simp [decSigFields] at h
+  | [_], _, h => by simp [decSigFields] at h
+  | [_, _], _, h => by simp [decSigFields] at h
+  | _ :: _ :: _ :: _ :: _, _, h => by simp [decSigFields] at h
+  | [p, u, s], v, h => by
+    have ihu := decUnprot_wfval u
+    obtain ⟨p', u', sg', sig, pm, um, hxs, hsg, hz, hp, hu, hiv, rfl⟩ := decSigFields_ok h
+    simp only [List.cons.injEq, and_true] at hxs
+    obtain ⟨h1, h2, h3⟩ := hxs
+    subst h1 h2 h3
+    obtain ⟨hw, c, -, hc, rfl⟩ := Accept.wfsig_of_dec hsg hz
+    simp only [WFVal]
+    exact ⟨⟨prot_accept_rules _ _ hp, unprot_accept_rules _ _ hu, hiv, c, rfl, hc⟩, ihu um hu⟩
+theorem decUnprot_wfval : ∀ (u : Wire) (um : GoMap), decUnprot u = .ok um → WFPairs um
+  | .map _ kvs, um, h => by
+    have ih := decUnprotPairs_wfval kvs
+    obtain ⟨hw', kvs', heq, -, hd, -⟩ := decUnprot_ok h
+    cases heq
+    exact ih um hd
+  | .uint .., _, h => by simp [decUnprot] at h
+  | .nint .., _, h => by simp [decUnprot] at h
+  | .bstr .., _, h => by simp [decUnprot] at h
+  | .tstr .., _, h => by simp [decUnprot] at h
+  | .tag .., _, h => by simp [decUnprot] at h
+  | .prim .., _, h => by simp [decUnprot] at h
+  | .arr .., _, h => by simp [decUnprot] at h
+theorem decUnprotPairs_wfval : ∀ (kvs : List (Wire × Wire)) (m : GoMap),
+    decUnprotPairs kvs = .ok m → WFPairs m
+  | [], m, h => by
+    simp only [decUnprotPairs, Out.ok.injEq] at h
+    subst h
+    simp [WFPairs]
+  | (k, v) :: r, m, h => by
+    have ih1 := decCsigValue_wfval v
+    have ih2 := decUnprotPairs_wfval r
+    unfold decUnprotPairs at h
+    cases hk : decodeAny k with
+    | ok key =>
+      simp only [hk] at h
+      generalize hval : (if isCsigLabel key then decCsigValue v else decodeAny v) = value at h
+      cases value <;> cases hr : decUnprotPairs r <;> simp [hr] at h
+      subst h
+      simp only [WFPairs]
+      refine ⟨?_, ih2 _ hr⟩
+      split at hval
+      · exact ih1 _ hval
+      · exact decodeAny_wfval hval
+    | err e => simp [hk] at h
+    | panic => simp [hk] at h
+    | unmodelled => simp [hk] at h
+theorem decCsigValue_wfval : ∀ (w : Wire) (v : GoVal), decCsigValue w = .ok v → WFVal v
+  | .arr _ xs, v, h => by
+    have ih1 := decSigFields_wfval xs
+    have ih2 := decCsigList_wfval xs
+    rcases csig_value_accept _ _ h with ⟨xs', heq, c, hc, rfl⟩ | ⟨hw', xs', l, heq, hl, rfl⟩ |
+      ⟨h', -⟩
+    · cases heq; exact ih1 _ hc
+    · cases heq; simp only [WFVal]; exact ih2 _ hl
+    · rcases h' with h' | h' <;> cases h'
+  | .prim _ _, v, h => by
+    rcases csig_value_accept _ _ h with ⟨xs', heq, -⟩ | ⟨hw', xs', l, heq, -⟩ | ⟨-, rfl⟩
+    · cases heq
+    · cases heq
+    · simp [WFVal]
+  | .uint .., _, h => by simp [decCsigValue] at h
+  | .nint .., _, h => by simp [decCsigValue] at h
+  | .bstr .., _, h => by simp [decCsigValue] at h
+  | .tstr .., _, h => by simp [decCsigValue] at h
+  | .tag .., _, h => by simp [decCsigValue] at h
+  | .map .., _, h => by simp [decCsigValue] at h
+theorem decCsigList_wfval : ∀ (xs : List Wire) (l : List GoVal), decCsigList xs = .ok l → WFList l
+  | [], l, h => by
+    rw [C06.decCsigList_nil] at h
+    cases h
+    simp [WFList]
+  | .arr _ ys :: xs, l, h => by
+    have ih1 := decSigFields_wfval ys
+    have ih2 := decCsigList_wfval xs
+    obtain ⟨a, r, ha, hr, rfl⟩ := decCsigList_cons_ok h
+    simp only [WFList]
+    refine ⟨?_, ih2 _ hr⟩
+    rcases csigOne_ok ha with ⟨h' | h', -⟩ | ⟨ys', heq, hy⟩
+    · cases h'
+    · cases h'
+    · cases heq; exact ih1 _ hy
+  | .prim _ _ :: xs, l, h => by
+    have ih2 := decCsigList_wfval xs
+    obtain ⟨a, r, ha, hr, rfl⟩ := decCsigList_cons_ok h
+    simp only [WFList]
+    exact ⟨csigOne_wfval_of_not_arr ha (by intro _ _ hh; cases hh), ih2 _ hr⟩
+  | .uint .. :: xs, l, h => by
+    have ih2 := decCsigList_wfval xs
+    obtain ⟨a, r, ha, hr, rfl⟩ := decCsigList_cons_ok h
+    simp only [WFList]
+    exact ⟨csigOne_wfval_of_not_arr ha (by intro _ _ hh; cases hh), ih2 _ hr⟩
+  | .nint .. :: xs, l, h => by
+    have ih2 := decCsigList_wfval xs
+    obtain ⟨a, r, ha, hr, rfl⟩ := decCsigList_cons_ok h
+    simp only [WFList]
+    exact ⟨csigOne_wfval_of_not_arr ha (by intro _ _ hh; cases hh), ih2 _ hr⟩
+  | .bstr .. :: xs, l, h => by
+    have ih2 := decCsigList_wfval xs
+    obtain ⟨a, r, ha, hr, rfl⟩ := decCsigList_cons_ok h
+    simp only [WFList]
+    exact ⟨csigOne_wfval_of_not_arr ha (by intro _ _ hh; cases hh), ih2 _ hr⟩
+  | .tstr .. :: xs, l, h => by
+    have ih2 := decCsigList_wfval xs
+    obtain ⟨a, r, ha, hr, rfl⟩ := decCsigList_cons_ok h
+    simp only [WFList]
+    exact ⟨csigOne_wfval_of_not_arr ha (by intro _ _ hh; cases hh), ih2 _ hr⟩
+  | .tag .. :: xs, l, h => by
+    have ih2 := decCsigList_wfval xs
+    obtain ⟨a, r, ha, hr, rfl⟩ := decCsigList_cons_ok h
+    simp only [WFList]
+    exact ⟨csigOne_wfval_of_not_arr ha (by intro _ _ hh; cases hh), ih2 _ hr⟩
+  | .map .. :: xs, l, h => by
+    have ih2 := decCsigList_wfval xs
+    obtain ⟨a, r, ha, hr, rfl⟩ := decCsigList_cons_ok h
+    simp only [WFList]
+    exact ⟨csigOne_wfval_of_not_arr ha (by intro _ _ hh; cases hh), ih2 _ hr⟩
+end
+
+/-- every value in an accepted unprotected bucket is well-formed at every depth: each
+    countersignature object (single, or element of a list) has validated headers of its own, and
+    the values of ITS unprotected bucket are well-formed again -/
+theorem unprot_values_wf (u : Wire) (um : GoMap) (h : decUnprot u = .ok um) :
+    ∀ e ∈ um, WFVal e.2 :=
+  WFPairs_mem (decUnprot_wfval u um h)
+
+/-- unfolding of the closure at a countersignature object -/
+theorem WFVal_csig {rp ru sg : Option Bytes} {p u : GoMap} (h : WFVal (.csig rp p ru u sg)) :
+    LayerRules p u sg ∧ ∀ e ∈ u, WFVal e.2 := by
+  simp only [WFVal] at h
+  exact ⟨h.1, WFPairs_mem h.2⟩
+
+theorem WFVal_csigs {l : List GoVal} (h : WFVal (.csigs l)) : ∀ c ∈ l, WFVal c := by
+  simp only [WFVal] at h
+  exact WFList_mem h
+
+/-- every countersignature object inside an accepted unprotected bucket has itself accepted
+    headers (one level; `unprot_values_wf` gives all levels) -/
+theorem nested_csig_headers (u : Wire) (um : GoMap) (h : decUnprot u = .ok um) :
+    ∀ e ∈ um, ∀ rp p ru uu sg, e.2 = .csig rp p ru uu sg →
+      (p = [] ∨ ∃ m0, validateHeaderParameters m0 true = true ∧ p = castAlg m0) ∧
+      validateHeaderParameters uu false = true ∧ ensureIV p uu = true ∧
+      (∃ s, sg = some s ∧ s ≠ []) := by
+  intro e he rp p ru uu sg heq
+  have hw := unprot_values_wf u um h e he
+  rw [heq] at hw
+  exact (WFVal_csig hw).1
+
+/-- … the same for the elements of a list of countersignatures -/
+theorem nested_csigs_headers (u : Wire) (um : GoMap) (h : decUnprot u = .ok um) :
+    ∀ e ∈ um, ∀ l, e.2 = .csigs l → ∀ c ∈ l, ∀ rp p ru uu sg, c = .csig rp p ru uu sg →
+      (p = [] ∨ ∃ m0, validateHeaderParameters m0 true = true ∧ p = castAlg m0) ∧
+      validateHeaderParameters uu false = true ∧ ensureIV p uu = true ∧
+      (∃ s, sg = some s ∧ s ≠ []) := by
+  intro e he l heq c hc rp p ru uu sg hceq
+  have hw := unprot_values_wf u um h e he
+  rw [heq] at hw
+  have hcw := WFVal_csigs hw c hc
+  rw [hceq] at hcw
+  exact (WFVal_csig hcw).1
+
+/-- … and, explicitly, one level further down: the unprotected bucket of a nested
+    countersignature again contains only well-formed values, so both theorems above apply to it
+    verbatim (with `WFVal` in place of the decoder hypothesis) -/
+theorem nested_csig_closed (u : Wire) (um : GoMap) (h : decUnprot u = .ok um) :
+    ∀ e ∈ um, ∀ rp p ru uu sg, e.2 = .csig rp p ru uu sg → ∀ e' ∈ uu, WFVal e'.2 := by
+  intro e he rp p ru uu sg heq
+  have hw := unprot_values_wf u um h e he
+  rw [heq] at hw
+  exact (WFVal_csig hw).2
+
+end C05
+
+/-! ### summary at message level -/
+namespace C05
+
+/-- an accepted COSE_Sign1: the header rules hold in the message layer and, recursively, in every
+    countersignature nested in its unprotected bucket -/
+theorem sign1_accept_all_layers (tagged : Bool) (b : Bytes) (m : Sign1Msg)
+    (h : Sign1.unmarshal tagged b = .ok m) :
+    LayerRules m.h.p m.h.u m.sig ∧ ∀ e ∈ m.h.u, WFVal e.2 := by
+  obtain ⟨p, u, pl, sg, -, -, hp, hu, hiv, -, -, -, hw, c, -, hc, hs⟩ :=
+    sign1_accept_wf_full tagged b m h
+  exact ⟨⟨prot_accept_rules _ _ hp, unprot_accept_rules _ _ hu, hiv, c, hs, hc⟩,
+    unprot_values_wf _ _ hu⟩
+
+/-- an accepted COSE_Signature / countersignature: the same -/
+theorem signature_accept_all_layers (b : Bytes) (s : SigV) (h : Signature.unmarshal b = .ok s) :
+    WFVal s.toVal := by
+  obtain ⟨p, u, sg, -, -, hp, hu, hiv, -, -, hw, c, -, hc, hs⟩ := signature_accept_wf_full b s h
+  simp only [SigV.toVal, WFVal]
+  exact ⟨⟨prot_accept_rules _ _ hp, unprot_accept_rules _ _ hu, hiv, c, hs, hc⟩,
+    decUnprot_wfval _ _ hu⟩
+
+/-- the well-formed tree of an accepted input is unique -/
+theorem sign1_tree_unique {w w' : Wire} (hw : WFSign1 w) (hw' : WFSign1 w')
+    (h : w.bytes = w'.bytes) : w = w' := by
+  obtain ⟨_, _, _, _, -, hwf, -⟩ := hw
+  obtain ⟨_, _, _, _, -, hwf', -⟩ := hw'
+  exact Reencode.bytes_inj hwf hwf' h
+
+theorem signature_tree_unique {w w' : Wire} (hw : WFSignature w) (hw' : WFSignature w')
+    (h : w.bytes = w'.bytes) : w = w' := by
+  obtain ⟨_, _, _, -, hwf, -⟩ := hw
+  obtain ⟨_, _, _, -, hwf', -⟩ := hw'
+  exact Reencode.bytes_inj hwf hwf' h
 
 end C05
